@@ -21,23 +21,25 @@ MAX_INST = 6000
 
 
 def _has_var(e, cache):
+    # caches are keyed by AST id; the AST is stored with the result so that it
+    # stays alive and its id cannot be reused by another term
     k = e.get_id()
     if k in cache:
-        return cache[k]
+        return cache[k][1]
     if z3.is_var(e):
         r = True
     elif z3.is_quantifier(e):
         r = True
     else:
         r = any(_has_var(c, cache) for c in e.children())
-    cache[k] = r
+    cache[k] = (e, r)
     return r
 
 
 def _collect_ground(fs):
     """Ground argument terms by (function symbol, argument position), plus all
     ground terms by sort (fallback)."""
-    seen = set()
+    seen = {}
     bypos = {}
     bysort = {}
     hv = {}
@@ -56,7 +58,7 @@ def _collect_ground(fs):
         k = e.get_id()
         if k in seen:
             return
-        seen.add(k)
+        seen[k] = e
         if z3.is_quantifier(e):
             walk(e.body())
             return
@@ -82,13 +84,13 @@ def _var_positions(body, nvars):
     """For each bound variable (de Bruijn index) the (symbol, position) slots
     where it occurs as a direct argument."""
     slots = {}
-    seen = set()
+    seen = {}
 
     def walk(e, depth):
         key = (e.get_id(), depth)
         if key in seen:
             return
-        seen.add(key)
+        seen[key] = e
         if z3.is_quantifier(e):
             walk(e.body(), depth + e.num_vars())
             return
@@ -112,7 +114,7 @@ def _instantiate(e, terms, stats, cache):
     bypos, bysort = terms
     k = e.get_id()
     if k in cache:
-        return cache[k]
+        return cache[k][1]
     if z3.is_quantifier(e):
         if not e.is_forall():
             r = z3.BoolVal(True)     # weakening (positive polarity after NNF)
@@ -154,19 +156,19 @@ def _instantiate(e, terms, stats, cache):
                                  zip(ch, e.children())) else e
     else:
         r = e
-    cache[k] = r
+    cache[k] = (e, r)
     return r
 
 
 def _has_quant(e, cache):
     k = e.get_id()
     if k in cache:
-        return cache[k]
+        return cache[k][1]
     if z3.is_quantifier(e):
         r = True
     else:
         r = any(_has_quant(c, cache) for c in e.children())
-    cache[k] = r
+    cache[k] = (e, r)
     return r
 
 
@@ -189,14 +191,14 @@ def _app_values(m, fs, limit=60):
     """values of ground applications of uninterpreted functions in the model
     (scalars only), so a replay can read off array elements"""
     out = {}
-    seen = set()
+    seen = {}
     hv = {}
 
     def walk(e):
         k = e.get_id()
         if k in seen or len(out) >= limit:
             return
-        seen.add(k)
+        seen[k] = e
         if z3.is_quantifier(e):
             return
         if z3.is_app(e):
